@@ -8,6 +8,7 @@ import (
 	"testing"
 
 	"github.com/freeconf/yang/fc"
+	"github.com/freeconf/yang/meta"
 	"github.com/freeconf/yang/node"
 	"github.com/freeconf/yang/nodeutil"
 	"pgregory.net/rapid"
@@ -63,6 +64,54 @@ func c03SourceNode(kind string, mod *dm.Module, entryNode *dm.Node, parentNode *
 		return nodeutil.ReadJSON(dm.ToJSON("", entryNode, content, dm.JSONStyle{Num64AsString: true}))
 	}
 	return nil, fmt.Errorf("source kind %s", kind)
+}
+
+// c03StoreSource holds the source content in a store of the given kind (a whole tree in which only the way to the entry
+// and the content exist) and returns the node the library itself finds at the entry.
+func c03StoreSource(mm *meta.Module, root *dm.Node, kind string, entry dm.Path, isListNode bool, content dm.Tree, entries []interface{}) (node.Node, error) {
+	whole := dm.Tree{}
+	cur, n := whole, root
+	for i, seg := range entry {
+		d := n.Child(seg.Name)
+		if d == nil {
+			return nil, fmt.Errorf("no %s in %s", seg.Name, n.Name)
+		}
+		last := i == len(entry)-1
+		switch {
+		case last && isListNode:
+			cur[seg.Name] = dm.Clone(entries)
+		case last && d.Kind == "list":
+			cur[seg.Name] = []interface{}{dm.CloneTree(content)}
+		case last:
+			cur[seg.Name] = dm.CloneTree(content)
+		case d.Kind == "list":
+			e := dm.Tree{}
+			for j, k := range d.Keys {
+				e[k] = seg.Key[j]
+			}
+			cur[seg.Name] = []interface{}{e}
+			cur = e
+		default:
+			sub := dm.Tree{}
+			cur[seg.Name] = sub
+			cur = sub
+		}
+		n = d
+	}
+	if len(entry) == 0 {
+		whole = dm.CloneTree(content)
+	}
+	st, err := dm.NewStore(kind, root, whole)
+	if err != nil {
+		return nil, err
+	}
+	sel := node.NewBrowser(mm, st.Node()).Root()
+	if len(entry) > 0 {
+		if sel, err = sel.Find(findPath(entry)); err != nil || sel == nil {
+			return nil, fmt.Errorf("source store %s: Find(%s): sel=%v err=%v", kind, findPath(entry), sel != nil, err)
+		}
+	}
+	return sel.Node, nil
 }
 
 func choiceConflict(n *dm.Node, target, src dm.Tree) bool {
@@ -171,7 +220,15 @@ func c03Run(c c03Case, o *hx.Obs) {
 	if c.SrcKind != "rs" {
 		tail += "<" + c.SrcKind
 	}
-	src, err := c03SourceNode(c.SrcKind, c.Module, entryNode, parentNode, isListNode, c.Source, srcEntries)
+	var src node.Node
+	// (a struct field cannot be unset, so a struct-backed source would state a zero for every leaf: not used as a source)
+	if c.SrcKind == "same-store" && c.DstKind != "rs" && !strings.HasSuffix(c.DstKind, "-struct") {
+		src, err = c03StoreSource(mm, root, c.DstKind, c.Entry, isListNode, c.Source, srcEntries)
+	} else if c.SrcKind == "same-store" {
+		src, err = c03SourceNode("rs", c.Module, entryNode, parentNode, isListNode, c.Source, srcEntries)
+	} else {
+		src, err = c03SourceNode(c.SrcKind, c.Module, entryNode, parentNode, isListNode, c.Source, srcEntries)
+	}
 	if err != nil {
 		o.Failf(sigBase+"source-rejected"+tail, "source: %v", err)
 		return
@@ -314,7 +371,7 @@ func c03Gen(dstKinds, srcKinds []string, strategies []dm.Strategy) func(t *rapid
 		switch {
 		case len(c.Entry) == 0:
 			c.Source = source
-			if c.Strategy == dm.Upsert && rapid.IntRange(0, 3).Draw(t, "repeat-key") == 0 {
+			if c.Strategy == dm.Upsert && c.SrcKind != "same-store" && rapid.IntRange(0, 3).Draw(t, "repeat-key") == 0 {
 				repeatAnEntry(t, m.Root(), c.Source) // the same key twice in one payload merges into one entry
 			}
 		case en.Kind == "list" && c.Entry[len(c.Entry)-1].Key == nil:
@@ -343,8 +400,8 @@ var allStrategies = []dm.Strategy{dm.Upsert, dm.Insert, dm.Update}
 
 var c03Merge = hx.Register(&hx.Check[c03Case]{
 	Name: "c03-merge",
-	Rule: "schema (containers, nested lists, leaves with defaults, leaf-lists, choices) + universe tree; target and source are independent sub-samples of the universe (source leaves redrawn with p=1/2); strategy x entry point (root, container, list, list entry present in the target) x XFrom/XInto x source store {reference, JSON reader} x target store {reference, map-backed Reflect, map-backed Node, struct-backed Reflect, struct-backed Node}; oracle = harness keyed deep merge with conflict / not-found classes; non-trivial = an error is expected or the merge changes a non-empty target",
-	Gen:  c03Gen([]string{"rs", "rs", "reflect-map", "node-map", "reflect-slice", "node-slice", "reflect-struct", "node-struct"}, []string{"rs", "json"}, allStrategies),
+	Rule: "schema (containers, nested lists, leaves with defaults, leaf-lists, choices) + universe tree; target and source are independent sub-samples of the universe (source leaves redrawn with p=1/2); strategy x entry point (root, container, list, list entry present in the target) x XFrom/XInto x source store {reference, JSON reader, a store of the target's kind} x target store {reference, map-backed Reflect, map-backed Node, struct-backed Reflect, struct-backed Node}; oracle = harness keyed deep merge with conflict / not-found classes; non-trivial = an error is expected or the merge changes a non-empty target",
+	Gen:  c03Gen([]string{"rs", "rs", "reflect-map", "node-map", "reflect-slice", "node-slice", "reflect-struct", "node-struct"}, []string{"rs", "json", "same-store"}, allStrategies),
 	Run:  c03Run,
 })
 
